@@ -4,29 +4,30 @@ import Cqos.Facts.Defs
   goroutines or called by the user (`main`, `loop`, `loopUntimeouted`, `transfer`, the handlers
   of the simplified disciplines, `Stop`, `GracefulStop`, `Release`, `AddInput`, `RemoveInput`):
   the steppers call the functions *inside* them one at a time and the step machines of
-  Cqos/Sched.lean, Join.lean, Limit.lean encode how these glue functions compose them.  The
-  table `callseq` (regenerated from /repo on every run) holds, for each of them, the calls made
-  through the receiver (with their argument text), channel operations, `time.*` calls and the
-  control skeleton, in source order; the theorems below pin it to the composition the machines
-  assume.  A change of the glue (a reordered call, another argument, an extra branch) breaks
-  the obligation of the properties that rely on that composition; the black-box scenarios then
-  look for a failing input.
+  Cqos/Sched.lean, Join.lean, Limit.lean, Simple.lean, SimpleV1.lean encode how these glue
+  functions compose them.  The table `callseq` (regenerated from /repo on every run) holds, for
+  each of them, the calls made through the receiver (with their argument text), channel
+  operations, `time.*` calls and the control skeleton, in source order, with local variables
+  renamed `$1, $2, …` in order of first appearance; the theorems below pin it to the
+  composition the machines assume.  A change of the glue (a reordered call, another argument,
+  an extra branch) breaks the obligation of the properties that rely on that composition; the
+  black-box scenarios then look for a failing input.
 -/
 namespace Cqos.Facts
 
 def glueJoinExpected : List (String × String × String × List String) := [
   ("v2/join", "Discipline", "Release", ["dsc.release <- struct{}{}"]),
   ("v2/join", "Discipline", "main", ["if dsc.interruptInterval == 0", "dsc.loopUntimeouted()", "return", "dsc.loop()"]),
-  ("v2/join", "Discipline", "loop", ["dsc.pass()", "time.NewTicker(dsc.interruptInterval)", "for", "<-ticker.C", "if dsc.isTimeouted()", "dsc.isTimeouted()", "dsc.pass()", "<-dsc.opts.Input", "if !opened", "return", "dsc.process(item)"]),
-  ("v2/join", "Discipline", "loopUntimeouted", ["dsc.pass()", "for", "dsc.process(item)"]),
+  ("v2/join", "Discipline", "loop", ["dsc.pass()", "time.NewTicker(dsc.interruptInterval)", "for", "<-$1.C", "if dsc.isTimeouted()", "dsc.isTimeouted()", "dsc.pass()", "<-dsc.opts.Input", "if !$3", "return", "dsc.process($2)"]),
+  ("v2/join", "Discipline", "loopUntimeouted", ["dsc.pass()", "for", "dsc.process($1)"]),
   ("v2/join/unite", "Discipline", "Release", ["dsc.release <- struct{}{}"]),
   ("v2/join/unite", "Discipline", "main", ["if dsc.interruptInterval == 0", "dsc.loopUntimeouted()", "return", "dsc.loop()"]),
-  ("v2/join/unite", "Discipline", "loop", ["dsc.pass()", "time.NewTicker(dsc.interruptInterval)", "for", "<-ticker.C", "if dsc.isTimeouted()", "dsc.isTimeouted()", "dsc.pass()", "<-dsc.opts.Input", "if !opened", "return", "dsc.process(item)"]),
-  ("v2/join/unite", "Discipline", "loopUntimeouted", ["dsc.pass()", "for", "dsc.process(item)"]),
+  ("v2/join/unite", "Discipline", "loop", ["dsc.pass()", "time.NewTicker(dsc.interruptInterval)", "for", "<-$1.C", "if dsc.isTimeouted()", "dsc.isTimeouted()", "dsc.pass()", "<-dsc.opts.Input", "if !$3", "return", "dsc.process($2)"]),
+  ("v2/join/unite", "Discipline", "loopUntimeouted", ["dsc.pass()", "for", "dsc.process($1)"]),
   ("join", "Discipline", "Stop", ["dsc.breaker.Break()"]),
   ("join", "Discipline", "main", ["dsc.breaker.Complete()", "if dsc.interruptInterval == 0", "dsc.loopUntimeouted()", "return", "dsc.loop()"]),
-  ("join", "Discipline", "loop", ["dsc.pass()", "time.NewTicker(dsc.interruptInterval)", "for", "<-dsc.breaker.IsBreaked()", "dsc.breaker.IsBreaked()", "return", "<-dsc.opts.Ctx.Done()", "dsc.opts.Ctx.Done()", "return", "<-ticker.C", "if dsc.isTimeouted()", "dsc.isTimeouted()", "dsc.pass()", "<-dsc.opts.Input", "if !opened", "return", "dsc.process(item)"]),
-  ("join", "Discipline", "loopUntimeouted", ["dsc.pass()", "for", "<-dsc.breaker.IsBreaked()", "dsc.breaker.IsBreaked()", "return", "<-dsc.opts.Ctx.Done()", "dsc.opts.Ctx.Done()", "return", "<-dsc.opts.Input", "if !opened", "return", "dsc.process(item)"])
+  ("join", "Discipline", "loop", ["dsc.pass()", "time.NewTicker(dsc.interruptInterval)", "for", "<-dsc.breaker.IsBreaked()", "dsc.breaker.IsBreaked()", "return", "<-dsc.opts.Ctx.Done()", "dsc.opts.Ctx.Done()", "return", "<-$1.C", "if dsc.isTimeouted()", "dsc.isTimeouted()", "dsc.pass()", "<-dsc.opts.Input", "if !$3", "return", "dsc.process($2)"]),
+  ("join", "Discipline", "loopUntimeouted", ["dsc.pass()", "for", "<-dsc.breaker.IsBreaked()", "dsc.breaker.IsBreaked()", "return", "<-dsc.opts.Ctx.Done()", "dsc.opts.Ctx.Done()", "return", "<-dsc.opts.Input", "if !$2", "return", "dsc.process($1)"])
 ]
 
 /-- join / unite: `main` picks `loopUntimeouted` iff the interrupt interval is zero; both loops end with the deferred `pass`; the timed loop passes on a tick only when `isTimeouted` -/
